@@ -94,12 +94,17 @@ def go_mod(deps, L):
     singles = [d for d in deps if d[0] == "single"]
     blocks = [d for d in deps if d[0] in ("block", "indirect")]
     others = [d for d in deps if d[0] in ("replace", "exclude", "retract")]
+    # comment lines of their own (also ones that read like a requirement: a first word, then a word that starts with "v")
+    if L["comment"]:
+        out += ["// vendored v1 copy", "// require example.com/commented v1.0.0", "//require example.com/commented v1.0.1", ""]
     for _, p, v, decl in singles:
         sep = "\t" if L["tabsep"] else " "
         out.append(f"{L['lead_ws']}require{sep}{p}{sep}{v}" + (" // pinned" if L["comment"] else "") + ("  " if L["trail_ws"] else ""))
         if decl: declared.append(decl)
     if blocks:
         out.append("require (")
+        if L["comment"]:
+            out += [f"{L['indent']}// vendored copies", f"{L['indent']}// example.com/commented v1.0.2", "// v2 below", f"{L['indent']}//example.com/commented v1.0.3"]
         for form, p, v, decl in blocks:
             out.append(f"{L['indent']}{p}{' ' if not L['tabsep'] else chr(9)}{v}" + (" // indirect" if form == "indirect" else "") + (" \t" if L["trail_ws"] else ""))
             if L["blank"]: out.append("")
